@@ -12,9 +12,14 @@ Inductive wpkt := WPkt (planned : bool) (idx : Z) (frames : list (Z * Z)) (ping 
 (* builder terms as the harness prints them: SBRandom carries parameter lists *)
 Inductive sbterm := SBPass | SBFrames (qfs : list frame) | SBRandom (specs : list (list Z)) | SBFlight.
 
+(* flight builder terms as the harness prints them *)
+Inductive fbterm := FBFrames (dgs : list (list frame)) | FBRandom (dgs : list (list (Z * Z) * list Z)).
+Inductive planres := POk (wires : list string) | PErr (cls : Z) | PPanic.
+
 Inductive case :=
 | WireCase (sb : sbterm) (hello : string) (pkts : list wpkt)
-| DialCase (specs : list (list Z)) (cls : Z).   (* what UTransport.Dial said about a randomizing builder: 0 = not refused *)
+| DialCase (specs : list (list Z)) (cls : Z)
+| PlanCase (fb : fbterm) (hello : string) (budgets : list Z) (rnd : string) (us : list Z) (r : planres).   (* what UTransport.Dial said about a randomizing builder: 0 = not refused *)
 
 Definition rf_of (l : list Z) : rf :=
   match l with
@@ -55,6 +60,30 @@ Fixpoint first_bad (i : nat) (sb : sbuilder) (hello : list Z) (ps : list wpkt) :
   | p :: r => if pkt_ok sb hello p then first_bad (S i) sb hello r else Some i
   end.
 
+Definition fb_of (t : fbterm) : fbuilder :=
+  match t with
+  | FBFrames d => OnWire.FBFrames d
+  | FBRandom d => OnWire.FBRandom (map (fun '(rs, p) => (rs, rf_of p)) d)
+  end.
+
+Fixpoint wires_ok (ws : list (list wframe)) (wires : list (list Z)) : bool :=
+  match ws, wires with
+  | [], [] => true
+  | w :: ws', x :: wires' => prefix_then_zeros (encode w) x && wires_ok ws' wires'
+  | _, _ => false
+  end.
+
+Definition plan_ok (fb : fbuilder) (hello : list Z) (budgets : list Z) (bs us : list Z) (r : planres) : bool :=
+  match plan_flight fb hello budgets bs us, r with
+  | Ok (wss, bs', _), POk wires =>
+    wires_ok wss (map hx wires) && (zlen bs' =? 0)
+    (* the datagrams sent are exactly flight_sent *)
+    && wires_ok (flight_sent fb hello budgets bs us) (map hx wires)
+  | Err c, PErr c' => (c =? c') && match flight_sent fb hello budgets bs us with [] => true | _ => false end
+  | Panic, PPanic => true
+  | _, _ => false
+  end.
+
 Definition model_obs (c : case) : option nat :=
   match c with
   | WireCase sb h ps => first_bad 0 (sb_of sb) (hx h) ps
@@ -64,6 +93,7 @@ Definition model_obs (c : case) : option nat :=
     | Err c => if cls =? c then None else Some 0%nat
     | Panic => Some 0%nat
     end
+  | PlanCase fb h budgets rnd us r => if plan_ok (fb_of fb) (hx h) budgets (hx rnd) us r then None else Some 0%nat
   end.
 
 Definition check_case (c : case) : bool := match model_obs c with None => true | Some _ => false end.
